@@ -334,6 +334,16 @@ type PrevProbe struct {
 	NItems  []any `json:"nitems"`
 }
 
+// Resize: the walk made with ANOTHER page size from the `next` cursor of the first page: forward to the end (fwd),
+// then `previous` hop after hop (back); backEnd: the walk back ended on a page without `previous`.
+type Resize struct {
+	Checked bool    `json:"checked"`
+	Size2   int     `json:"size2"`
+	Fwd     [][]any `json:"fwd"`
+	Back    [][]any `json:"back"`
+	BackEnd bool    `json:"backEnd"`
+}
+
 type ReadOut struct {
 	Status string      `json:"status"` // ok | validation | not_found | internal
 	Msg    string      `json:"msg,omitempty"`
@@ -343,6 +353,7 @@ type ReadOut struct {
 	PrevOK bool        `json:"prevChecked"`
 	// listings of 3..8 pages: back[h] = the page reached by the h-th consecutive `previous` hop from the last page; the
 	// last element also carries the page reached by `next` from there; backEnd: the walk ended on a page without `previous`
+	Rz      Resize      `json:"rz"`
 	Back    []PrevProbe `json:"back"`
 	BackOK  bool        `json:"backChecked"`
 	BackEnd bool        `json:"backEnd"`
@@ -768,7 +779,8 @@ func baseRes(q ReadQ) string {
 
 // ExecRead issues the read (all its pages, the previous-cursor probes and the count) and projects it.
 func (e *Env) ExecRead(l string, q ReadQ) (ReadOut, error) {
-	out := ReadOut{Pages: []Page{}, Prevs: []PrevProbe{}, Back: []PrevProbe{}, Full: []any{}, Base: []any{}, Count: -1}
+	out := ReadOut{Pages: []Page{}, Prevs: []PrevProbe{}, Back: []PrevProbe{}, Full: []any{}, Base: []any{}, Count: -1,
+		Rz: Resize{Fwd: [][]any{}, Back: [][]any{}}}
 	e.PG.TakeNotes()
 	defer func() {
 		for _, n := range e.PG.TakeNotes() {
@@ -929,6 +941,53 @@ func (e *Env) ExecRead(l string, q ReadQ) (ReadOut, error) {
 			out.Back = append(out.Back, pr)
 		}
 		out.BackEnd = cur == ""
+	}
+	// a request that follows a cursor may carry ANOTHER pageSize: from the `next` cursor of the first page walk forward
+	// to the end with a different page size, then backward with `previous` down to the start (unique-key listings)
+	out.Rz = Resize{Fwd: [][]any{}, Back: [][]any{}}
+	if n := len(out.Pages); !q.IsTpl && n >= 2 && n <= 8 && out.Pages[0].next != "" && q.Size >= 1 &&
+		(q.Res == "accounts" || q.Res == "transactions" || q.Res == "logs") {
+		out.Rz.Checked, out.Rz.Size2 = true, q.Size%4+1
+		walk := func(start string, prev bool, firstWithSize bool) ([][]any, string, bool, error) {
+			pages := [][]any{}
+			cur, lastPrev := start, ""
+			for hop := 0; hop < 40 && cur != ""; hop++ {
+				rq := e.followRequest(l, q, first, cur)
+				if hop == 0 && firstWithSize {
+					rq.path += "&pageSize=" + strconv.Itoa(out.Rz.Size2)
+				}
+				pp, st, msg, err := do(rq)
+				if err != nil {
+					return nil, "", false, err
+				}
+				if pp == nil {
+					out.PErr, out.Msg = "resize-walk:"+st, msg
+					return pages, "", false, nil
+				}
+				pages = append(pages, pp.Items)
+				lastPrev = pp.prev
+				if prev {
+					cur = pp.prev
+				} else {
+					cur = pp.next
+				}
+			}
+			return pages, lastPrev, cur == "", nil
+		}
+		fwd, lastPrev, _, err := walk(out.Pages[0].next, false, true)
+		if err != nil {
+			return out, err
+		}
+		out.Rz.Fwd = fwd
+		if out.PErr == "" && lastPrev != "" {
+			back, _, ended, err := walk(lastPrev, true, false)
+			if err != nil {
+				return out, err
+			}
+			out.Rz.Back, out.Rz.BackEnd = back, ended
+		} else if out.PErr == "" {
+			out.Rz.BackEnd = true
+		}
 	}
 	if !q.IsTpl && (q.Res == "volumes" || q.Res == "accounts" || q.Res == "transactions" || q.Res == "logs") {
 		q1 := q
